@@ -2290,6 +2290,10 @@ class Interp:
             cache[k.qual] = out
             n_ev = len(self.trace.events) if getattr(self, "trace", None) is not None else 0
             for n in k.node.body:
+                if isinstance(n, ast.FunctionDef) and n.name in k.methods and k.methods[n.name].node is n:
+                    # the plain function a later class-level table refers to ({"merge": _resolve_by_merge})
+                    env[n.name] = FuncVal(k.methods[n.name])
+                    continue
                 if isinstance(n, ast.Assign) and len(n.targets) == 1 and isinstance(n.targets[0], ast.Name):
                     try:
                         v = self.eval(n.value, env)
@@ -2500,6 +2504,11 @@ class Interp:
             q = fn.func.qual
             if q in self.summaries:
                 return self.summaries[q](self, pos, kw, node)
+            f_ = fn.func
+            if (f_.cls is not None and pos and isinstance(pos[0], Opaque) and f_.params[:1] == ["self"]
+                    and not any(isinstance(d, ast.Name) and d.id in ("staticmethod", "classmethod") for d in f_.node.decorator_list)):
+                # the plain function of a class body, called with the receiver given explicitly (a class-level dispatch table)
+                return self.call_func(f_, pos[1:], kw, self_obj=pos[0], node=node, closure=fn.closure)
             return self.call_func(fn.func, pos, kw, node=node, closure=fn.closure)
         if isinstance(fn, BoundMethod):
             m_ = getattr(fn, "func", None)
